@@ -101,6 +101,18 @@ Theorem C01_memstore_is_the_radix_tree : forall (cell:Type) (ins:list (list Z * 
   TreeP.wf_tree t /\ TreeStoreP.refines cell t m.
 Proof. exact TreeStoreP.memstore_refines. Qed.
 
+(* non-vacuity of the tree theorems: a tree built from keys that are prefixes of each other, the empty key included,
+   is well formed (as every built tree is), and reads and walks as the theorems say *)
+Example C01_tree_nonvacuous :
+  let add v := fun o : option Z => match o with Some c => c + v | None => v end in
+  let ups := [([97; 98; 99], add 1); ([97; 98; 100], add 2); ([97; 98], add 4); ([], add 8); ([98], add 16); ([97; 98], add 32)] in
+  let t := TreeP.built ups in
+  TreeP.wf_tree t
+  /\ Tree.tfind [97; 98] t = Some 36 /\ Tree.tfind [] t = Some 8 /\ Tree.tfind [97] t = None
+  /\ Tree.t_len t = 5
+  /\ snd (Tree.twalk 0 (fun _ _ => (true, true)) t) = [([97; 98], 36); ([], 8); ([97; 98; 99], 1); ([97; 98; 100], 2); ([98], 16)].
+Proof. split; [apply TreeP.built_wf|]. vm_compute. repeat split; reflexivity. Qed.
+
 Print Assumptions C01_bucket.
 Print Assumptions C01_bucket_unique.
 Print Assumptions C01_one_row_per_group_period.
